@@ -755,6 +755,7 @@ type run struct {
 	failedReorg bool
 	lenientTip  bool
 	inNode      int
+	dataCut     int // recovery image: bytes cut off the end of the newest block data file
 	hookLog     []hookEvent
 	everPaid    map[string]bool
 	delivAt     map[[32]byte]int // effect-log length when the block was first handed to the node
